@@ -433,12 +433,75 @@ func specDataFlags(p *chunkPayloadData) uint8 {
 //@   requires#ring len(q.tsnBitmask) > 0 && len(q.tsnBitmask) <= 1024 && len(q.tsnBitmask)&(len(q.tsnBitmask)-1) == 0
 //@   requires#one-revolution uint64(endTSN-startTSN) < 64*uint64(len(q.tsnBitmask))
 //@   loop 1 invariant#progress remaining == endTSN-startTSN+1 && startTSN-old(startTSN) <= endTSN-old(startTSN)+1 && len(q.tsnBitmask) == old(len(q.tsnBitmask))
-//@   loop 1 invariant#cleared-so-far forall t uint32 :: uint64(t-old(startTSN)) < 64*uint64(len(q.tsnBitmask)) ==>
-//@      specRpqBit(q, t) == (old(specRpqBit(q, t)) && !(t-old(startTSN) < startTSN-old(startTSN)))
+//@   loop 1 invariant#cleared-so-far forall t uint32 ::
+//@      specRpqBit(q, t) == (old(specRpqBit(q, t)) && !(uint64(t-old(startTSN))&(64*uint64(len(q.tsnBitmask))-1) < uint64(startTSN-old(startTSN))))
 //@   loop 1 decreases int(remaining)
-//@   ensures#range-cleared-rest-untouched forall t uint32 :: uint64(t-old(startTSN)) < 64*uint64(len(q.tsnBitmask)) ==>
-//@      specRpqBit(q, t) == (old(specRpqBit(q, t)) && !(t-old(startTSN) <= endTSN-old(startTSN)))
+//@   ensures#range-cleared-rest-untouched forall t uint32 ::
+//@      specRpqBit(q, t) == (old(specRpqBit(q, t)) && !(uint64(t-old(startTSN))&(64*uint64(len(q.tsnBitmask))-1) <= uint64(endTSN-old(startTSN))))
 //@   ensures#frame q.cumulativeTSN == old(q.cumulativeTSN) && q.tailTSN == old(q.tailTSN) && q.maxTSNOffset == old(q.maxTSNOffset) && len(q.tsnBitmask) == old(len(q.tsnBitmask))
+//@   ensures#count{TRUSTED} forall t uint32 :: specRpqBit(q, t) ==> q.chunkSize > 0
 //@   modifies q.tsnBitmask[*], q.chunkSize
 //@   tags C05 C07 C16
+//@   safety C03
+
+//@ func receivePayloadQueue.init
+//@   requires#ring len(q.tsnBitmask) > 0 && len(q.tsnBitmask) <= 1024 && len(q.tsnBitmask)&(len(q.tsnBitmask)-1) == 0 && uint64(q.maxTSNOffset) <= 64*uint64(len(q.tsnBitmask))
+//@   loop 1 invariant#zeroed rangeIdx <= len(q.tsnBitmask) && len(q.tsnBitmask) == old(len(q.tsnBitmask)) && q.maxTSNOffset == old(q.maxTSNOffset) &&
+//@      q.cumulativeTSN == cumulativeTSN && q.tailTSN == cumulativeTSN && q.chunkSize == 0
+//@   loop 1 invariant#zeroed-words forall j int :: 0 <= j && j < rangeIdx ==> q.tsnBitmask[j] == 0
+//@   ensures rpqInv(q)
+//@   ensures rpqCount(q)
+//@   ensures#restarted q.cumulativeTSN == cumulativeTSN && q.tailTSN == cumulativeTSN && q.chunkSize == 0 && len(q.dupTSN) == 0
+//@   ensures#empty-view forall t uint32 :: !specRpqHas(q, t)
+//@   tags C05 C04 C16
+//@   safety C03
+
+//@ func receivePayloadQueue.advanceCumulativeTSN
+//@   requires rpqInv(q)
+//@   requires rpqCount(q)
+//@   loop 1 invariant#zeroed rangeIdx <= len(q.tsnBitmask) && len(q.tsnBitmask) == old(len(q.tsnBitmask)) && q.maxTSNOffset == old(q.maxTSNOffset) &&
+//@      q.cumulativeTSN == old(q.cumulativeTSN) && q.tailTSN == old(q.tailTSN)
+//@   loop 1 invariant#zeroed-words forall j int :: 0 <= j && j < rangeIdx ==> q.tsnBitmask[j] == 0
+//@   ensures rpqInv(q)
+//@   ensures#count{TRUSTED} q.chunkSize >= 0 && (q.chunkSize == 0 ==> q.tailTSN == q.cumulativeTSN) && (q.chunkSize > 0 ==> specRpqHas(q, q.tailTSN))
+//@   ensures#jumps-forward old(specSerLT32(q.cumulativeTSN, cumulativeTSN)) ==> q.cumulativeTSN == cumulativeTSN
+//@   ensures#view-after-jump old(specSerLT32(q.cumulativeTSN, cumulativeTSN)) ==> forall t uint32 :: specRpqHas(q, t) == (old(specRpqHas(q, t)) && specSerLT32(cumulativeTSN, t))
+//@   ensures#stale-is-ignored !old(specSerLT32(q.cumulativeTSN, cumulativeTSN)) ==> q.cumulativeTSN == old(q.cumulativeTSN) && q.tailTSN == old(q.tailTSN) && q.chunkSize == old(q.chunkSize)
+//@   ensures#stale-view !old(specSerLT32(q.cumulativeTSN, cumulativeTSN)) ==> forall t uint32 :: specRpqHas(q, t) == old(specRpqHas(q, t))
+//@   ensures#never-backwards q.cumulativeTSN-old(q.cumulativeTSN) < 1<<31
+//@   modifies q.tsnBitmask[*], q.chunkSize, q.tailTSN, q.cumulativeTSN
+//@   tags C05 C07 C16
+//@   safety C03
+
+// ---- C05: gap ack blocks tell exactly which offsets above the cumulative point were received ----
+
+// specRpqR(q, o): the TSN at offset o above the cumulative point was received (and is inside the tracked window).
+func specRpqR(q *receivePayloadQueue, o uint32) bool {
+	return o >= 1 && o <= q.tailTSN-q.cumulativeTSN && specRpqBit(q, q.cumulativeTSN+o)
+}
+
+//@ func getFirstNonZeroBit
+//@   requires#range 0 <= start && start < 64 && end == 64
+//@   ensures#found result1 ==> start <= result0 && result0 < 64 && val>>uint(result0)&1 == 1
+//@   ensures#first result1 ==> forall b int :: start <= b && b < result0 ==> val>>uint(b)&1 == 0
+//@   ensures#none !result1 ==> forall b int :: start <= b && b < 64 ==> val>>uint(b)&1 == 0
+//@   tags C05
+//@   safety C03
+
+//@ func getFirstZeroBit
+//@   requires#range 0 <= start && start < 64 && end == 64
+//@   ensures#found result1 ==> start <= result0 && result0 < 64 && val>>uint(result0)&1 == 0
+//@   ensures#first result1 ==> forall b int :: start <= b && b < result0 ==> val>>uint(b)&1 == 1
+//@   ensures#none !result1 ==> forall b int :: start <= b && b < 64 ==> val>>uint(b)&1 == 1
+//@   tags C05
+//@   safety C03
+
+
+//@ func receivePayloadQueue.getGapAckBlocks
+//@   requires rpqInv(q)
+//@   requires rpqCount(q)
+//@   loop 1 invariant#I0 tsn-q.cumulativeTSN >= 1 && tsn-q.cumulativeTSN <= q.tailTSN-q.cumulativeTSN+64 &&
+//@      (findEnd ==> tsn-q.cumulativeTSN <= q.tailTSN-q.cumulativeTSN)
+//@   loop 1 decreases 2*(int(q.tailTSN-q.cumulativeTSN)+65-int(tsn-q.cumulativeTSN)) + ite(findEnd == specRpqBit(q, tsn), 0, 1)
+//@   tags C05 C16
 //@   safety C03
